@@ -165,12 +165,12 @@ def build_coq(prop=None):
         gname = None
         if prop is not None:
             gname, g = group_of(prop)
-            targets = ["Properties/%s.vo" % prop, g["extract"]]
+            targets = ["Properties/%s.vo" % prop, g["extract"]] + [v["extract"] for v in groups().values() if prop in v.get("also_for", [])]
         p = subprocess.run(["timeout", "3000", "make", "-f", "Makefile.gen", "-k", "-j%d" % NPROC] + targets,
                            cwd=COQ, stdout=subprocess.PIPE, stderr=subprocess.STDOUT, text=True)
         ok = p.returncode == 0
         out = p.stdout
-        for n in ([gname] if gname else list(groups())):
+        for n in ([gname] + [n_ for n_, v in groups().items() if prop in v.get("also_for", [])] if gname else list(groups())):
             try:
                 build_ocaml(n)
             except RuntimeError as e:
